@@ -55,7 +55,7 @@ pub open spec fn division_identity(s: Polynomial, q: Polynomial, d: Polynomial, 
 def units(ctx):
     u = Unit("C12", "divide", preludes=("real", "stdx"), cfg=cfg())
     u.rlimit = 60
-    u.timeout = 240
+    u.timeout = 600
     u.item(PFILE, "struct", "Polynomial")
     u.spec(POLY_SPEC)
     u.spec(SPEC)
@@ -250,7 +250,7 @@ def complex_unit(prop="C12"):
     u = Unit(prop, "divide_complex", preludes=("real", "stdx", "cx", "cxdiv"), cfg=complex_cfg())
     u.crate_attrs = []
     u.rlimit = 60
-    u.timeout = 240
+    u.timeout = 600
     u.item(PFILE, "struct", "Polynomial")
     u.spec(CX_SPEC)
     im = u.impl(PFILE, "Polynomial<N>", header="impl Polynomial", keep_assoc=False)
